@@ -13,8 +13,21 @@
     witnessed by [c15_all_workers_done_refuted]: only workers registered
     before Stop's stop.Wait() returned are waited for (the sync.WaitGroup
     contract); RunWorker called later starts a worker that outlives
-    "stopped". *)
-From Shk Require Import Base.Prelude Model.Stopper Corr.C15 Proofs.StopperProofs Proofs.StopperDrive.
+    "stopped".
+
+    Liveness is partial too ([c15_stop_returns_partial]): it is proved that
+    the Stop call that does the work reaches "stopped" and returns once every
+    task function and every worker function has returned (or panicked) and
+    no call is still on its way in -- the remaining deferred steps of their
+    goroutines are enabled and finitely many, then Stop's own steps are.  With
+    calls still on their way in, or bodies that never return, only the
+    absence of a permanent block by the Stopper is proved
+    ([c15_no_lost_wakeup], [c15_release_never_blocks]), not termination under
+    a general fairness assumption.  Not proved either: that every history
+    the model allows passes the oracle of Corr/C15.v (the oracle is tied to
+    the code only through the cases of each run). *)
+From Shk Require Import Base.Prelude Model.Stopper Corr.C15 Proofs.StopperProofs Proofs.StopperDrive
+  Proofs.StopperLive Proofs.StopperFlush.
 Open Scope nat_scope.
 
 (** No task whose start was refused ever runs: its body has not begun, cannot
@@ -128,6 +141,31 @@ Theorem c15_release_never_blocks : forall caps s i t k cap len,
   reachable caps s -> nth_error (tasks s) i = Some t -> holds_slot_of k t = true ->
   nth_error (sems s) k = Some (cap, len) -> exists sm', sem_dec s k = Some sm'.
 Proof. exact release_never_blocks. Qed.
+
+(** Liveness (partial, see the header).  Once every task function and every
+    worker function has returned or panicked ([bodies_over]: every call was
+    refused or its f is over; no call is on its way in), there is a schedule
+    -- the deferred [<-sem] / runPostlude / stop.Done() steps still due, in
+    any order they are found, then the Stop caller's own steps -- along which
+    the Stop call that does the work, wherever it stands (not yet entered,
+    before or inside Quiesce, asleep in Cond.Wait, before close(stopper), in
+    stop.Wait(), before or after the closers), reaches "stopped" and returns;
+    every step of it is enabled when it is taken (nothing has to wait for
+    anything else).  A later Stop call returns at its first step. *)
+Theorem c15_stop_returns_partial : forall caps s j th,
+  reachable caps s -> bodies_over s -> nth_error (sthreads s) j = Some th -> s_is_stop th = true ->
+  (sp th = SEnter -> stop_called s = false /\ mu_held s = false) ->
+  sp th <> SReturned ->
+  exists ls s', steps s ls = Some s' /\ stopped_ch s' = true /\
+                nth_error (sthreads s') j = Some {| s_is_stop := true; sp := SReturned |}.
+Proof. exact stop_returns_when_bodies_over. Qed.
+
+Theorem c15_later_stop_returns : forall caps s j th,
+  reachable caps s -> nth_error (sthreads s) j = Some th -> sp th = SEnter ->
+  stop_called s = true -> mu_held s = false ->
+  exists s', step s (LStopEnter j) = Next s' /\
+             nth_error (sthreads s') j = Some {| s_is_stop := true; sp := SReturned |}.
+Proof. exact later_stop_returns. Qed.
 
 (** The states the correspondence check compares with the real Stopper are
     reachable states of the model (so all of the above applies to them). *)
